@@ -157,3 +157,27 @@ def quantise(val, qexp, bound=INT_MAX):
         return True, y
     except Exception:
         return False, 0
+
+
+def snapshot(obj, depth=0):
+    """structural, comparable picture of call arguments (to observe that a call leaves them unchanged);
+    total: unknown objects are pictured by their repr"""
+    try:
+        import numpy as np
+        if depth > 6:
+            return repr(obj)[:80]
+        if is_quantity(obj):
+            return ("q", np.asarray(obj.magnitude).ravel().tolist(), str(obj.dimensionality))
+        if isinstance(obj, np.ndarray):
+            return ("a", obj.ravel().tolist(), str(obj.dtype))
+        if isinstance(obj, dict):
+            return ("d", [(snapshot(k, depth + 1), snapshot(v, depth + 1)) for k, v in obj.items()])
+        if isinstance(obj, (list, tuple)):
+            return ("l", [snapshot(x, depth + 1) for x in obj])
+        if isinstance(obj, (int, float, str, bool, complex)) or obj is None:
+            return obj
+        if hasattr(obj, "charge") and hasattr(obj, "name"):
+            return ("s", str(obj.name), snapshot(getattr(obj, "charge", None), depth + 1))
+        return repr(obj)[:120]
+    except Exception as e:  # never a crash
+        return "unsnapshotable: %s" % type(e).__name__
